@@ -5,8 +5,7 @@ package main
 //     statement of the loop body (true: every rule starts from the zero value) or once in front of the loop (false:
 //     what one rule captured is carried into the next). The Coq model (CommentSpec.run_loop) takes this flag as a
 //     parameter, so the executed model follows the source; the theorem C12_match_data_fresh needs it to be true.
-//   * gen_c12_facts: statement facts of runCommentRules (loop over the rules in load order, path choice, index
-//     arithmetic, positions through file.Offset, break on accept), handleCommentMatch (the filter sees this rule's match
+//   * gen_c12_facts: statement facts of handleCommentMatch (the filter sees this rule's match
 //     data; every field of the reused ReportData is assigned unconditionally), run (every comment of every group),
 //     loadCommentRule (pattern and flag come from the same source string) and regexpHasCaptureGroups (nothing but the
 //     parse and the walk that Regex/Capture.v models).
@@ -101,8 +100,6 @@ func genC12(repo string, args []string) (string, error) {
 	if nLoops != 1 {
 		return "", fmt.Errorf("runCommentRules: expected exactly one top-level range loop, found %d", nLoops)
 	}
-	add("runCommentRules: the loop visits the comment rules in load order",
-		exprString(fset, loop.X) == "rr.rules.universal.commentRules" && exprString(fset, loop.Key) == "_" && loop.Value != nil && exprString(fset, loop.Value) == "rule" && loop.Tok == token.DEFINE)
 	declInBody, declBefore, declElsewhere := 0, 0, 0
 	for i, s := range rc.Body.List {
 		if c12IsVarDecl(s, "m", "matchData", fset) {
@@ -152,115 +149,10 @@ func genC12(repo string, args []string) (string, error) {
 	default:
 		return "", fmt.Errorf("runCommentRules: the declaration of the match data `m` is not understood (in loop body: %d, before the loop: %d, other: %d)", declInBody, declBefore, declElsewhere)
 	}
-	// writes to m: only appends to m.match.Capture and assignments of m.match.Node
-	writesOK := true
-	nAppend, nNode := 0, 0
-	ast.Inspect(rc.Body, func(n ast.Node) bool {
-		as, ok := n.(*ast.AssignStmt)
-		if !ok {
-			return true
-		}
-		for i, l := range as.Lhs {
-			if c12RootIdent(l) != "m" {
-				continue
-			}
-			if _, whole := l.(*ast.Ident); whole {
-				continue // counted above
-			}
-			ls := exprString(fset, l)
-			rhs := ""
-			if len(as.Rhs) == len(as.Lhs) {
-				rhs = normStmt(fset, as.Rhs[i])
-			}
-			switch {
-			case ls == "m.match.Capture" && as.Tok == token.ASSIGN && strings.HasPrefix(rhs, "append(m.match.Capture, gogrep.CapturedNode{"):
-				nAppend++
-			case ls == "m.match.Node" && as.Tok == token.ASSIGN && strings.HasPrefix(rhs, "&ast.Comment{"):
-				nNode++
-			default:
-				writesOK = false
-			}
-		}
-		return true
-	})
-	add("runCommentRules: the match data is written only by appending this rule's groups and setting the matched node", writesOK && nAppend == 2 && nNode == 2)
-	ss := c03StmtSet(fset, rc)
+	// the statements of runCommentRules are no longer compared as text: the function is translated (c12loop.go) and proved
+	// equal to the model on every run
+
 	has := func(set map[string]int, text string, n int) bool { return set[normText(text)] == n }
-	add("runCommentRules: file is the token.File of the comment", has(ss, "file := rr.ctx.Fset.File(comment.Pos())", 1))
-	var pathIf *ast.IfStmt
-	nIf := 0
-	for _, s := range loop.Body.List {
-		if is, ok := s.(*ast.IfStmt); ok && exprString(fset, is.Cond) == "rule.captureGroups" && is.Init == nil {
-			pathIf = is
-			nIf++
-		}
-	}
-	pathOK := nIf == 1 && pathIf.Else != nil
-	var thenSet, elseSet map[string]int
-	if pathOK {
-		eb, isBlock := pathIf.Else.(*ast.BlockStmt)
-		pathOK = isBlock
-		if isBlock {
-			thenSet = c03StmtSet(fset, &ast.FuncDecl{Body: pathIf.Body})
-			elseSet = c03StmtSet(fset, &ast.FuncDecl{Body: eb})
-		}
-	}
-	add("runCommentRules: rule.captureGroups chooses between the submatch path and the fast path", pathOK)
-	nilCont := "if result == nil {continue}"
-	wholeNode := "m.match.Node = &ast.Comment{Slash:file.Pos(result[0] + file.Offset(comment.Pos())), Text:comment.Text[result[0]:result[1]]}"
-	add("runCommentRules: submatch path asks regexp for the submatch indices of comment.Text, no match = next rule",
-		pathOK && has(thenSet, "result := rule.pat.FindStringSubmatchIndex(comment.Text)", 1) && has(thenSet, nilCont, 1) && has(elseSet, "result := rule.pat.FindStringSubmatchIndex(comment.Text)", 0))
-	add("runCommentRules: fast path asks regexp for the match indices of comment.Text, no match = next rule",
-		pathOK && has(elseSet, "result := rule.pat.FindStringIndex(comment.Text)", 1) && has(elseSet, nilCont, 1) && has(thenSet, "result := rule.pat.FindStringIndex(comment.Text)", 0))
-	add("runCommentRules: the matched node is [result[0], result[1]) of the text, positioned at file offset of the comment + result[0] (both paths)",
-		pathOK && has(thenSet, wholeNode, 1) && has(elseSet, wholeNode, 1))
-	// the group loop
-	var gl *ast.RangeStmt
-	nGl := 0
-	if pathOK {
-		for _, s := range pathIf.Body.List {
-			if rs, ok := s.(*ast.RangeStmt); ok {
-				gl = rs
-				nGl++
-			}
-		}
-	}
-	glOK := nGl == 1 && exprString(fset, gl.X) == "rule.pat.SubexpNames()" && gl.Key != nil && exprString(fset, gl.Key) == "i" && gl.Value != nil && exprString(fset, gl.Value) == "name"
-	add("runCommentRules: groups are visited by regexp group index with their names", glOK)
-	var gls map[string]int
-	if glOK {
-		gls = c03StmtSet(fset, &ast.FuncDecl{Body: gl.Body})
-	}
-	add("runCommentRules: group 0 and unnamed groups bind nothing", glOK && has(gls, "if i == 0 || name == \"\" {continue}", 1))
-	add("runCommentRules: group i reads result[2i] and result[2i+1]",
-		glOK && has(gls, "resultIndex := i * 2", 1) && has(gls, "beginPos := result[resultIndex+0]", 1) && has(gls, "endPos := result[resultIndex+1]", 1))
-	add("runCommentRules: a group that did not participate is an empty node at the comment",
-		glOK && has(gls, "if beginPos < 0 || endPos < 0 {m.match.Capture = append(m.match.Capture, gogrep.CapturedNode{Name:name, Node:&ast.Comment{Slash:comment.Pos()}});continue}", 1))
-	add("runCommentRules: a group is [beginPos, endPos) of the text, positioned at file offset of the comment + beginPos",
-		glOK && has(gls, "m.match.Capture = append(m.match.Capture, gogrep.CapturedNode{Name:name, Node:&ast.Comment{Slash:file.Pos(beginPos + file.Offset(comment.Pos())), Text:comment.Text[beginPos:endPos]}})", 1))
-	// accept / break: the last two statements of the loop body
-	nb := len(loop.Body.List)
-	add("runCommentRules: the handler gets this rule and its match data; the first accepting rule ends the loop",
-		nb >= 2 && normStmt(fset, loop.Body.List[nb-2]) == normText("accept := rr.handleCommentMatch(rule, m)") && normStmt(fset, loop.Body.List[nb-1]) == normText("if accept {break}") &&
-			has(ss, "accept := rr.handleCommentMatch(rule, m)", 1))
-	nBreak, nCont := 0, 0
-	ast.Inspect(rc.Body, func(n ast.Node) bool {
-		if b, ok := n.(*ast.BranchStmt); ok {
-			switch b.Tok {
-			case token.BREAK:
-				nBreak++
-			case token.CONTINUE:
-				nCont++
-			default:
-				nBreak += 100
-			}
-		}
-		if _, ok := n.(*ast.ReturnStmt); ok {
-			nBreak += 100
-		}
-		return true
-	})
-	add("runCommentRules: no other way out of the loops (one break, four continues, no return / goto)", nBreak == 1 && nCont == 4)
 
 	// ---- handleCommentMatch / handleMatch
 	hcs := c03StmtSet(fset, hc)
